@@ -211,17 +211,20 @@ def _schedules(hi, bound, acc, record=True, only_schedule=None):
     import jsonpath
 
     name, tasks = harnesses()[hi]
-    compiled = {}
-    docs = []
     expected = []
     for text, doc, fc, mode in tasks:
-        if text not in compiled:
-            compiled[text] = jsonpath.compile(text)
-        d = sched.wrap(doc)
-        docs.append(d)
-        expected.append(_sync(compiled[text], d, fc))
+        # reference: a fresh compile evaluated synchronously, once, on a fresh proxy document
+        expected.append(_sync(jsonpath.JSONPathEnvironment().compile(text), sched.wrap(doc), fc))
 
     def make():
+        # rebuilt per execution (independent executions, exact prefix replay); shared between the tasks of one execution
+        env = jsonpath.JSONPathEnvironment()
+        compiled = {}
+        docs = []
+        for text, doc, fc, mode in tasks:
+            if text not in compiled:
+                compiled[text] = env.compile(text)
+            docs.append(sched.wrap(doc))
         coros = []
         for (text, doc, fc, mode), d in zip(tasks, docs):
             p = compiled[text]
